@@ -261,7 +261,7 @@ IMGX = 'bytes(self._data_in_cache) + self._tag.mem[len(self._data_in_cache):]'
 RDR2 = lambda: Obj(T2 + 'Type2TagMemoryReader', _partial=False, _data_from_tag=Bytes(0, None, mutable=True),   # noqa
                    _data_in_cache=Bytes(0, None, mutable=True),
                    _tag=Obj('models.tag_models:T2PageTag', _partial=False, mem=Bytes(64, None), cur=Int(0, 255),
-                            writes=0))
+                            writes=0, lossy=False))
 RLOOP = {(RD + '._read_from_tag', 'While', 0): LoopSpec(
     entry={'_i0': IMGX, '_m0': 'self._tag.mem'},
     invariant=RI + ['index == len(self._data_from_tag) or index == (len(self._data_from_tag) >> 4) << 4',
@@ -283,7 +283,7 @@ contract(T2 + 'Type2TagMemoryReader.__setitem__', 'C01', dict(self=RDR2(), key=I
                   ('O-refine.no-write', 'self._tag.writes == 0 and self._tag.mem == old(self._tag.mem)')],
          raises={}, loops=RLOOP)
 contract(T2 + 'Type2TagMemoryReader.synchronize', 'C01', dict(self=RDR2()),
-         name='C01/tt2.reader.synchronize', requires=RI + ['len(self._tag.mem) <= 1024'],
+         name='C01/tt2.reader.synchronize', requires=RI + ['len(self._tag.mem) <= 0x40000'],   # all 256 sectors
          ensures=[('O-refine.ri', ' and '.join('(%s)' % x for x in RI)),
                   ('O-refine.flushed', 'self._tag.mem == old(%s)' % IMGX),
                   ('O-refine.image', '%s == old(%s)' % (IMGX, IMGX))],
@@ -456,3 +456,88 @@ for _mod, _fn, _unit, _first, _endx, _maxa in (
                            'len(data) + (2 if len(data) < 255 else 4) <= %s.end - %s.off - (%s.b - %s.a)'
                            % ((IMG,) * 4)],
                  ensures=ens, raises={}, loops=loops, budget_s=1800)
+
+# a WRITE that is lost ends synchronize() with the command error and leaves the reader consistent with the tag
+# (what the reader believes to be on the tag is on the tag), so that a repeated write does the right thing
+RDR2L = lambda: Obj(T2 + 'Type2TagMemoryReader', _partial=False, _data_from_tag=Bytes(0, None, mutable=True),   # noqa
+                    _data_in_cache=Bytes(0, None, mutable=True),
+                    _tag=Obj('models.tag_models:T2PageTag', _partial=False, mem=Bytes(64, None), cur=Int(0, 255),
+                             writes=0, lossy=True))
+contract(T2 + 'Type2TagMemoryReader.synchronize', 'C02', dict(self=RDR2L()),
+         name='C02/tt2.reader.synchronize.lossy', requires=RI + ['len(self._tag.mem) <= 0x40000'],
+         ensures=[('O-refine.ri', ' and '.join('(%s)' % x for x in RI))],
+         raises={T2 + 'Type2TagCommandError': [' and '.join('(%s)' % x for x in RI)]},
+         loops={(RD + '._write_to_tag', 'While', 0): LoopSpec(
+             entry={'_S': 'self._tag.mem', '_C': 'bytes(self._data_in_cache)'},
+             invariant=['index % 4 == 0 and index >= 0 and index <= stop + 3', 'stop == len(_C)',
+                        'bytes(self._data_in_cache) == _C', 'len(self._data_from_tag) == len(_C)',
+                        'self._tag.mem == _C[0:index] + _S[index:]',
+                        'self._data_from_tag == _C[0:index] + _S[index:len(_C)]', 'len(_C) % 16 == 0',
+                        'len(_C) <= len(_S)'],
+             decreases='stop - index',
+             havoc={'index': Int(0, None), 'self._tag.mem': '_C[0:index] + _S[index:]',
+                    'self._data_from_tag': 'bytearray(_C[0:index] + _S[index:len(_C)])',
+                    'self._tag.cur': Int(0, 255), 'self._tag.writes': Int(0, None)})})
+
+# The write contracts above take the NDEF object's cached view of the tag (TLV offset, skip set, memory image) to
+# describe the tag as it is.  format() rewrites the management bytes through a reader of its own, so that
+# assumption survives a format only because the public wrapper then drops the cached NDEF object: a later
+# tag.ndef parses the tag afresh instead of writing through the pre-format view (which would address blocks that
+# no longer belong to the message area).  One contract per class that defines or inherits a public format().
+_FMT = [('nfc.tag.tt1_broadcom:Topaz', None), ('nfc.tag.tt1_broadcom:Topaz512', None),
+        ('nfc.tag.tt2:Type2Tag', None), ('nfc.tag.tt2_nxp:NTAG203', 'nfc.tag.tt2_nxp:NTAG203'),
+        ('nfc.tag.tt2_nxp:NTAG210', None), ('nfc.tag.tt2_nxp:NTAG212', None), ('nfc.tag.tt2_nxp:NTAG213', None),
+        ('nfc.tag.tt2_nxp:NTAG215', None), ('nfc.tag.tt2_nxp:NTAG216', None),
+        ('nfc.tag.tt3:Type3Tag', None), ('nfc.tag.tt3_sony:FelicaLite', None), ('nfc.tag.tt3_sony:FelicaLiteS',
+                                                                               'nfc.tag.tt3_sony:FelicaLite'),
+        ('nfc.tag.tt4:Type4Tag', None)]
+for _cls, _own in _FMT:
+    _short = _cls.split(':')[1]
+    _fq = (_own or _cls) + '._format'
+    for prop in ('C03', 'C01'):
+        contract(_fq, prop, dict(self=Any(), version=Any(), wipe=Any()), name='%s/format.%s._format' % (prop, _short),
+                 assumed=True, raises={}, returns=OneOf(True, False, None),
+                 note='the type specific formatter: True when the tag was formatted (its own writes are not '
+                      'covered by a contract)')
+        contract(_cls + '.format', prop,
+                 dict(self=Obj(_cls, _ndef=Obj('nfc.tag:Tag.NDEF', _partial=False, _data=Bytes(0, None))),
+                      version=OneOf(None, Int(0, 255)), wipe=OneOf(None, Int(0, 255))),
+                 name='%s/format.%s' % (prop, _short), use=['%s/format.%s._format' % (prop, _short)],
+                 ensures=[('post.view-dropped', 'implies(result is True, self._ndef is None)'),
+                          ('post.formatter-called', 'was_called("%s/format.%s._format")' % (prop, _short))],
+                 raises={})
+# protect() changes what may be written (lock bits, CC access byte): the same rule, the cached view is dropped
+_PRT = ['nfc.tag.tt1:Type1Tag', 'nfc.tag.tt1_broadcom:Topaz', 'nfc.tag.tt1_broadcom:Topaz512', 'nfc.tag.tt2:Type2Tag',
+        'nfc.tag.tt2_nxp:MifareUltralightC', 'nfc.tag.tt2_nxp:NTAG203', 'nfc.tag.tt2_nxp:NTAG21x',
+        'nfc.tag.tt3_sony:FelicaLite', 'nfc.tag.tt3_sony:FelicaLiteS']
+for _cls in _PRT:
+    _short = _cls.split(':')[1]
+    for prop in ('C03', 'C01'):
+        contract(_cls + '._protect', prop, dict(self=Any(), password=Any(), read_protect=Any(), protect_from=Any()),
+                 name='%s/protect.%s._protect' % (prop, _short), assumed=True, raises={},
+                 returns=OneOf(True, False, None),
+                 note='the type specific protection: True when the tag was changed (its own writes are not covered '
+                      'by a contract)')
+        contract(_cls + '.protect', prop,
+                 dict(self=Obj(_cls, _ndef=Obj('nfc.tag:Tag.NDEF', _partial=False, _data=Bytes(0, None))),
+                      password=OneOf(None, Bytes(0, 32)), read_protect=Bool(), protect_from=Int(0, None)),
+                 name='%s/protect.%s' % (prop, _short), use=['%s/protect.%s._protect' % (prop, _short)],
+                 ensures=[('post.view-dropped', 'implies(result is True, self._ndef is None)'),
+                          ('post.protector-called', 'was_called("%s/protect.%s._protect")' % (prop, _short))],
+                 raises={})
+
+# The Type 2 memory reader addresses a page as (sector, page mod 256) and relies on Type2Tag.sector_select() for
+# the first half: the T2PageTag model the reader is proved against takes the tag object's belief about the selected
+# sector to be the tag's.  That holds only if _current_sector changes exactly when the tag has switched (after the
+# passive acknowledge of the second packet) - C16's contract for sector_select, an obligation of C01/C03 as well:
+# with a wrong belief the next WRITE lands 1 KiB away from the page that was meant, outside the message area.
+import copy as _copy
+from . import c16_tagcmd as _c16   # noqa
+from pyvc.contracts import REGISTRY as _REG
+for _c in list(_REG):
+    if _c.name == 'C16/tt2.sector_select':
+        for prop in ('C01', 'C03'):
+            _c2 = _copy.copy(_c)
+            _c2.prop = prop
+            _c2.name = prop + '/tt2.sector_select'
+            _REG.append(_c2)
